@@ -366,11 +366,11 @@ Definition silent_noops : list mkey := [
 ].
 Definition is_silent_noop (k : mkey) : bool := existsb (mkey_eqb k) silent_noops.
 
-(** Methods that report a failed witness test by returning [false]
-    ([balance.transfer], [nns.transfer]); for the other Boolean methods
-    ([nns.register] of a live name) [false] is an ordinary answer. *)
+(** Methods for which a returned [false] can only mean a failed witness test
+    ([nns.transfer]).  [balance.transfer] also answers [false] for a malformed
+    receiver or insufficient funds, [nns.register] for a live name: there
+    [false] under a met requirement is an ordinary answer. *)
 Definition refuses_with_false : list mkey := [
-  (KBalance, "transfer", 4);       (* balance/contract.go:393-396 *)
   (KNNS, "transfer", 3)            (* nns/contract.go:262-264 *)
 ].
 Definition is_refusing_false (k : mkey) : bool := existsb (mkey_eqb k) refuses_with_false.
